@@ -342,3 +342,13 @@ package vm
 //@   ensures[C07] @exact err == nil && old(big(callCost)) < 18446744073709551616 && L(old(big(callCost))) <= (availableGas - base) - (availableGas - base) / 64 ==> result0 == L(old(big(callCost)))
 //@   ensures[C07] @legacy gasTable.CreateBySuicide == 0 ==> (err == nil <==> old(big(callCost)) < 18446744073709551616)
 //@   nopanic[C07]
+
+// ---- write protection inside a static frame (C07) ---------------------------------------------------
+// In a read-only frame (Byzantium rules) every state-modifying operation, and every CALL that
+// carries a non-zero value (third stack item), is refused; nothing else is.
+//@ func Interpreter.enforceRestrictions
+//@   requires in != nil && in.evm != nil && stack != nil && (op == CALL ==> len(stack.data) >= 3 && stack.data[len(stack.data)-3] != nil && big(stack.data[len(stack.data)-3]) >= 0)
+//@   ensures[C07] @refuses in.evm.chainRules.IsByzantium && in.readOnly && (operation.writes || (op == CALL && big(stack.data[len(stack.data)-3]) > 0)) ==> result != nil
+//@   ensures[C07] @only result != nil ==> in.evm.chainRules.IsByzantium && in.readOnly && (operation.writes || op == CALL)
+//@   assigns nothing
+//@   nopanic[C07]
